@@ -70,17 +70,6 @@ def wrap(v, t):
     m = hi - lo + 1
     return (v - lo) % m + lo
 
-ROUNDED = [0]
-def ret_value(v, ret):
-    """the documented remainder v as the return type hands it back: narrowing for the integer types,
-    (double)(int64_t) (nearest, ties to even) for operator%(double)"""
-    if ret == "dbl_i64":
-        w = wrap(v, "i64")
-        if int(float(w)) != w:
-            ROUNDED[0] += 1
-        return int(float(w))
-    return wrap(v, ret)
-
 SPEC = {
     "tq": lambda n, d: [tquo(n, d)], "tr": lambda n, d: [trem(n, d)], "tqr": lambda n, d: [tquo(n, d), trem(n, d)],
     "fq": lambda n, d: [fquo(n, d)], "fr": lambda n, d: [frem(n, d)],
@@ -102,6 +91,8 @@ SPEC = {
 CFG = {"cfg.sizeof_long": 8, "cfg.givaro_sizeof_long": 8, "cfg.limb_bits": 64, "cfg.ulong_max": 2**64 - 1, "cfg.i64_min": -2**63,
        "cfg.i64_max": 2**63 - 1, "cfg.u64_max": 2**64 - 1, "cfg.i32_min": -2**31, "cfg.u32_max": 2**32 - 1, "cfg.i16_min": -2**15,
        "cfg.u16_max": 2**16 - 1, "cfg.dbl_mant_dig": 53, "cfg.dbl_round_nearest": 1, "cfg.long_is_int64": 1}
+CFG_DBG = dict(CFG)        # the same constants in the asserts-on configuration, which must also report NDEBUG undefined
+CFG["cfg.ndebug"] = 1
 for _k, _v in CFG.items():
     SPEC[_k] = (lambda v: (lambda n, d: [v]))(_v)
 
@@ -167,6 +158,12 @@ form("seq.mod", "emod"); form("seq.mod.ul", "emod", "Z", "u64"); form("seq.mod.l
 form("seq.div", "tq"); form("seq.div.ul", "tq", "Z", "u64"); form("seq.div.l", "tq", "Z", "i64")
 form("seq.divexact", "exact"); form("seq.divexact.ul", "exact", "Z", "u64"); form("seq.divexact.l", "exact", "Z", "i64")
 form("seq.trem.ul", "tr", "Z", "u64"); form("seq.divmod", "divmod")
+# phase 4: every two-output form with each output object being each input object
+for _a in ("qa", "qb", "ra", "rb", "qa.rb", "qb.ra"):
+    form("divmod.I@" + _a, "divmod"); form("dom.quoRem@" + _a, "divmod")
+for _a in ("qa", "qb", "ra", "rb"):
+    form("dom.divmod@" + _a, "divmod")
+form("divmod.l@qa", "divmod", "Z", "i64"); form("divmod.ul@qa", "divmod", "Z", "u64")
 TABLE_FORMS = sorted(f for f in F if not f.startswith("gmp."))      # what coq/C02/Table.v must list, with the same kind and types
 # trusted layers run against the compiled code: raw conversions and configuration constants (operand d unused, always 1)
 form("cast.i64_u64", "c.u64", "i64", "one"); form("cast.u64_i64", "c.i64", "u64", "one"); form("cast.i64_i32", "c.i32", "i64", "one")
@@ -177,7 +174,7 @@ for _k in CFG:
 RANGES["one"] = (1, 1)
 def conv_name(f):
     kind, nt, dt, ret = F[f]
-    return kind if ret is None else kind + ">" + ret
+    return kind if ret is None else kind + "|fits:" + ret
 
 # Site / input-class strings of the call forms that have (had) an entry in known_findings.json: the strings are
 # the keys of those entries, so they stay as they were recorded.  Every other form gets "Integer::<form>" and
@@ -192,7 +189,31 @@ SITES = {
     "dom.quoin": ("IntegerDom::quoin", lambda n, d: "d<0" if d < 0 else "d>0"),
 }
 
-def site_of(f, n, d):
+NARROW = {   # `%` overloads whose return type cannot hold every remainder: form -> (site, return type)
+    "op%.ul": ("Integer::operator%(uint64_t)->int64_t", "i64"), "op%.UL": ("Integer::operator%(uint64_t)->int64_t", "i64"),
+    "op%.u": ("Integer::operator%(uint32_t)->int32_t", "i32"), "op%.us": ("Integer::operator%(uint16_t)->int16_t", "i16"),
+    "op%.d": ("Integer::operator%(double)->double", "dbl"), "op%.dx": ("Integer::operator%(double)->double", "dbl"),
+}
+K_NOFIT = "remainder does not fit the return type"
+K_NOFIT64 = "remainder does not fit int64_t"
+K_NODBL = "remainder is not a double"
+
+def narrowed(f, r):
+    """what the code is known to return for a remainder r of a NARROW form (documentation of the findings, theorem
+    C02_percent_operators_narrow_return_wrap / C02_percent_double), and the value class of r"""
+    site, rt = NARROW[f]
+    if rt != "dbl":
+        return wrap(r, rt), (K_NOFIT if not fits(r, rt) else None)
+    w = wrap(r, "i64")
+    return int(float(w)), (K_NOFIT64 if w != r else (K_NODBL if int(float(r)) != r else None))
+
+def site_of(f, n, d, observed=None):
+    if f in NARROW and d != 0:
+        r = SPEC[F[f][0]](n, d)[0]
+        val, kl = narrowed(f, r)
+        if kl is not None:
+            # the recorded finding covers the narrowed value only: any OTHER wrong result in the same value class stays a violation
+            return NARROW[f][0], (kl if observed in (None, [str(val)]) else kl + " (and the result is not the narrowed remainder either)")
     if d == 0:
         return "IntegerDom::" + f[4:], "d=0"
     if f in SITES:
@@ -315,6 +336,8 @@ for _d in (2**63, -2**63, 2**64 - 2**11, 2**63 + 2**11, -(2**64 - 2**11)):
         DIRECTED.append(("op%.d", _n, _d)); DIRECTED.append(("op%.d", -_n, _d))
         DIRECTED.append(("op%.dx", _n, 16 * _d)); DIRECTED.append(("op%.ul", -_n, abs(_d)))
 
+ASSERT_SITES = ["Integer::mod(Integer&,const Integer&,int64_t) [asserts on]", "Integer::operator%(int64_t)->int64_t [asserts on]",
+                "Integer::operator%(double)->double [asserts on]"]
 def merged_known():
     """known_findings.json is the coordinator's file; until frag/C02.findings.json is merged into it the
     entries of the fragment are honoured as well (same matching rule: site + class)."""
@@ -325,9 +348,9 @@ def merged_known():
     except (OSError, ValueError):
         extra = []
     have = {(k.get("property"), k.get("site"), k.get("klass")) for k in base}
-    fixed_sites = {(k.get("property"), k.get("site")) for k in base if k.get("status") == "fixed"}
+    allowed = {s for s, _ in NARROW.values()} | set(ASSERT_SITES)        # nothing else can be masked from the fragment
     for e in extra:
-        if (e.get("property"), e.get("site"), e.get("klass")) not in have and (e.get("property"), e.get("site")) not in fixed_sites:
+        if e.get("property") == PID and e.get("site") in allowed and (e.get("property"), e.get("site"), e.get("klass")) not in have:
             base.append(e)
     return base
 
@@ -447,7 +470,7 @@ def cxx_defs(path, flags):
             keep.append(line)
     txt = "\n".join(keep)
     defs = {}
-    for m in re.finditer(r"(?:Integer\s*&?|int64_t|uint64_t|double)\s+(?:Integer::)?(operator\s*[/%]=?|\w+)\s*\(([^()]*)\)\s*(?:const)?\s*\{", txt):
+    for m in re.finditer(r"(?:Integer\s*&?|u?int\d+_t|double|float|bool|void|int|long|unsigned(?:\s+\w+)?)\s+(?:Integer::)?(operator\s*[/%]=?|\w+)\s*\(([^()]*)\)\s*(?:const)?\s*\{", txt):
         i, depth = m.end(), 1
         while i < len(txt) and depth:
             depth += {"{": 1, "}": -1}.get(txt[i], 0)
@@ -561,6 +584,117 @@ def norm(line):
     return line.split()
 
 
+def run_binary(chk, binary, lines, label, inconclusive):
+    """run the harness on the lines; locate crashes (each is a result), CPU-budget overruns (re-run alone with a larger
+    budget before being believed) and tooling time-outs / kills (inconclusive).  Returns one output string per line."""
+    iout, crashed, start = [], 0, 0
+    while start < len(lines):
+        rc, o, ierr = vf.run_lines(binary, "".join(lines[start:]), timeout=3000)
+        hung = bool(o) and o[-1] == "CPU-BUDGET-EXCEEDED"
+        if hung:
+            o = o[:-1]
+        iout += o
+        if len(iout) >= len(lines):
+            break
+        if rc == 124 or "[timeout]" in (ierr or ""):
+            inconclusive.append("%s: harness timed out (wall clock) after %d of %d cases: the remaining cases were not compared" % (label, len(iout), len(lines)))
+            break
+        if rc in (-9, 137, -15, 143):          # killed from outside (OOM killer, operator): says nothing about givaro
+            inconclusive.append("%s: harness was killed (rc=%s) after %d of %d cases: the remaining cases were not compared" % (label, rc, len(iout), len(lines)))
+            break
+        if rc == 0:
+            chk.broke("%s: harness stopped early without an error (rc=0, %d/%d lines)" % (label, len(iout), len(lines)), ierr)
+            break
+        if crashed >= 25:
+            chk.notes.append("%s: more than 25 crashes / overruns of the implementation in one chunk: %d cases not run" % (label, len(lines) - len(iout)))
+            break
+        crashed += 1
+        if hung and rc == 97:
+            # one case used more CPU time than the budget: run it alone with ten times the budget before reporting it
+            os.environ["C02_CPU_BUDGET"] = "200"
+            try:
+                rc2, o2, _ = vf.run_lines(binary, lines[len(iout)], timeout=3000)
+            finally:
+                os.environ.pop("C02_CPU_BUDGET", None)
+            if rc2 == 0 and len(o2) == 1:
+                iout.append(o2[0])
+            elif rc2 == 97:
+                iout.append("DOES-NOT-RETURN (more than 200 s of CPU time for this one call)")
+            elif rc2 == 124:
+                inconclusive.append("%s: re-run of a slow case timed out (wall clock)" % label)
+                iout.append("NOT-RUN")
+            else:
+                iout.append("CRASH(rc=%s)" % rc2)
+        else:
+            iout.append("CRASH(rc=%s)" % rc)
+        start = len(iout)
+    iout += ["NOT-RUN"] * (len(lines) - len(iout))
+    return iout[:len(lines)]
+
+
+def run_stream(chk, st, himpl, drv, all_cases, label, inconclusive, dbg=False):
+    CHUNK = 300000                     # bounded memory / pipe size in the thorough tier
+    for c0 in range(0, len(all_cases), CHUNK):
+        cases = all_cases[c0:c0 + CHUNK]
+        impl_in = "".join("%s %d %d\n" % (f, n, d) for f, n, d, cl in cases)
+        iout = run_binary(chk, himpl, impl_in.splitlines(True), label, inconclusive)
+        mout = None
+        if drv:
+            rc, mout, merr = vf.run_lines(drv, impl_in, timeout=3000)
+            if rc == 124 or "[timeout]" in (merr or "") or rc in (-9, 137, -15, 143):
+                inconclusive.append("extracted model driver timed out / was killed (rc=%s) after %d of %d cases of a chunk: no correspondence comparison for this chunk" % (rc, len(mout), len(cases)))
+                mout = None
+            elif rc != 0 or len(mout) != len(cases):
+                chk.broke("model driver failed (rc=%s, %d/%d lines)" % (rc, len(mout), len(cases)), merr)
+                mout = None
+        # comparison: implementation vs oracle decides violations; implementation vs extracted model is the tie
+        for i, (f, n, d, cl) in enumerate(cases):
+            kind, nt, dt, ret = F[f]
+            if iout[i] == "NOT-RUN":
+                continue
+            exp = [0] if (dbg and f == "cfg.ndebug") else SPEC[kind](n, d)          # the property's convention, whatever the return type
+            got = norm(iout[i])
+            exps = [str(x) for x in exp]
+            site, klass = site_of(f, n, d, got)
+            if dbg:
+                st["ndbg"] += 1
+                if got != exps and not (f in NARROW and not iout[i].startswith("ASSERT-FAILED")):     # value deviations are the NDEBUG stream's business
+                    if iout[i].startswith("ASSERT-FAILED"):
+                        site, klass = site_of(f, n, d, None)
+                        asite = {"mod.l": ASSERT_SITES[0], "mod.L": ASSERT_SITES[0], "seq.mod.l": ASSERT_SITES[0], "mod.i": ASSERT_SITES[0],
+                                 "op%.l": ASSERT_SITES[1], "op%.i": ASSERT_SITES[1], "op%.d": ASSERT_SITES[2], "op%.dx": ASSERT_SITES[2]}.get(f, site + " [asserts on]")
+                        r = SPEC[kind](n, d)[0] if kind in ("tr", "tr_x16") else None
+                        aklass = ("d=INT64_MIN" if d == -2**63 else klass) if f not in NARROW else klass
+                        chk.fail_input(asite, aklass, {"form": f, "n": str(n), "d": str(d), "build": "-UNDEBUG -DDEBUG"}, exps, iout[i],
+                                       "an assert of the library fails in the debug configuration")
+                    else:
+                        chk.fail_input(site + " [asserts on]", klass, {"form": f, "n": str(n), "d": str(d), "build": "-UNDEBUG -DDEBUG"}, exps, iout[i],
+                                       "the debug configuration differs from the documented convention (%s)" % kind)
+                continue
+            st["noracle"] += 1
+            st["dist_form"][f] = st["dist_form"].get(f, 0) + 1
+            st["dist_class"][cl] = st["dist_class"].get(cl, 0) + 1
+            sg = "n%s,d%s" % ("<0" if n < 0 else ("=0" if n == 0 else ">0"), "<0" if d < 0 else ">0")
+            st["dist_sign"][sg] = st["dist_sign"].get(sg, 0) + 1
+            chk.count((f, n, d), nontrivial=(n != 0 and abs(d) > 1 and n % d != 0) or (kind in ("exact",) and abs(d) != 1 and n != 0))
+            if (c0 + i) % 1499 == 0 or (cl == "directed" and i % 7 == 0):
+                chk.sample({"form": f, "n": str(n), "d": str(d), "class": cl, "impl": iout[i], "spec": exps}, limit=16)
+            if f in NARROW and narrowed(f, exp[0])[1] is not None:
+                st["nnarrow"] += 1
+            deviates = got != exps
+            if deviates:
+                chk.fail_input(site, klass, {"form": f, "n": str(n), "d": str(d)}, exps, iout[i],
+                               "implementation differs from the documented convention (%s)" % kind)
+            if mout is not None:
+                st["ncorr"] += 1
+                mg = norm(mout[i])
+                if mg != got:
+                    if not deviates:           # a failing input is reported once, not again as a correspondence break
+                        chk.broke("correspondence model/implementation differs on %s n=%d d=%d: model=%s impl=%s" % (f, n, d, mout[i], iout[i]))
+                elif not deviates and mg != exps:
+                    chk.broke("extracted model differs from the specification oracle on %s n=%d d=%d: model=%s spec=%s" % (f, n, d, mout[i], exps))
+
+
 def main(tier, replay=None):
     chk = vf.Check(PID, tier, "proof")
     rng = vf.Rng(chk.seed)
@@ -570,12 +704,14 @@ def main(tier, replay=None):
         "CInt layer of Model.v: LP64 x86-64, two's-complement wrap for std::abs(INT64_MIN) and -INT64_MIN (what g++ emits)",
         "the hand-written correspondence between each C++ overload body and its Gallina definition (validated by the correspondence run, not proved)",
         "Integer construction from a word, unary minus, negin, comparisons with a word, addin/subin by 1, += / -= taken with their Z meaning (subject of C01)",
-        "extraction: ExtrOcamlBasic only; Z kept as the extracted inductive; OCaml 4.13.1; zarith only for text I/O (harness/zio.ml)",
+        "extraction: ExtrOcamlBasic and ExtrOcamlNativeString (the form names of the overload table become OCaml strings); Z kept as the extracted inductive; OCaml 4.13.1; zarith only for text I/O (harness/zio.ml)",
         "harness/c02_divmod.C, checks/C02.py (generators, python oracle)", "g++ / GMP of the sandbox for the implementation side",
     ]
     chk.assumptions = ["model hand-written after the code, one definition per overload body; tie = correspondence on generated cases",
                        "d != 0 everywhere (division by zero is outside the documented contract)",
-                       "word-returning operator% overloads whose return type cannot hold the remainder (divisor > 2^63, 2^31, 2^15): expected value = the documented truncated remainder converted to the return type (C narrowing), theorem C02_percent_operators_narrow_return_wrap; operator%(double): (double)(int64_t) of it"]
+                       "EVERY `%` overload is judged by the header's convention (r = a % b: |r| < |b|, a r >= 0), whatever its return type: the overloads whose return type cannot hold every remainder (int64_t %(uint64_t), int32_t %(uint32_t), int16_t %(uint16_t), double %(double)) deviate for the value class 'remainder does not fit the return type'; that is filed as a known finding per overload (frag/C02.findings.json) and masks only the narrowed value the code is known to return (theorems C02_percent_operators_narrow_return_wrap, C02_percent_double, C02_percent_narrow_return_refuted)",
+                       "template operator%(XXX) at unsigned char returns |r|: documented by the header ('Cast towards unsigned consider only the absolute value', gmp++_int.h Cast operators)",
+                       "asserts-on stream: harness/c02_divmod.C compiled with -UNDEBUG -DDEBUG -DC02_ASSERTS re-compiles gmp++_int_div.C / gmp++_int_mod.C with their asserts; a failing assert is a failing input of that configuration"]
     # 1. proofs
     res = vf.coq_check_props(AREA, timeout=3000)
     inconclusive = []
@@ -588,7 +724,10 @@ def main(tier, replay=None):
     # 2. executables
     drv, l1 = vf.ocaml_build(AREA) if os.path.exists(os.path.join(vf.coq_dir(AREA), "ocaml", "model.ml")) else (None, "extraction did not run")
     if drv is None:
-        chk.broke("extracted model driver does not build", l1)
+        if "[timeout after" in (l1 or ""):
+            inconclusive.append("building the extracted model driver timed out (machine load): no correspondence comparison in this run")
+        else:
+            chk.broke("extracted model driver does not build", l1)
     himpl, l2 = vf.build_harness("c02_divmod.C", timeout=3000)
     if himpl is None:
         if "[timeout after" in l2:
@@ -615,7 +754,7 @@ def main(tier, replay=None):
     if not cases:
         for f, n, d in DIRECTED:
             cases.append((f, n, d, "directed"))
-        per = 260 if tier == "quick" else 20000
+        per = 160 if tier == "quick" else 20000
         N, D = (7, 3) if tier == "quick" else (130, 20)
         for f in sorted(F):
             kind, nt, dt, ret = F[f]
@@ -635,7 +774,7 @@ def main(tier, replay=None):
                     cases.append((f, rand_val(rng, nt), 1, "conversion: random"))
                 continue
             # the word limits (2^7 .. 2^64+1, +-1 around them) of divisor and remainder: the same list in every run
-            if not f.startswith("gmp.") or tier != "quick" or f in ("gmp.tdiv_ui", "gmp.tdiv_r_ui", "gmp.mod_ui", "gmp.tdiv_q_ui", "gmp.cdiv_r_ui", "gmp.fdiv_r_ui"):
+            if True:
                 for n, d in limit_grid(kind, nt, dt):
                     if d != 0 and clampfit(n, nt) and clampfit(d, dt) and (kind != "exact" or n % d == 0):
                         cases.append((f, n, d, "limit grid (exhaustive)"))
@@ -675,8 +814,8 @@ def main(tier, replay=None):
                         if d != 0 and clampfit(n, nt) and clampfit(d, dt) and (kind != "exact" or n % d == 0):
                             cases.append((f, n, d, "small box (exhaustive)"))
             cnt = per if not f.startswith("gmp.") else max(120, per // 4)
-            if tier == "quick":
-                cnt = 160 if not f.startswith("gmp.") else 100
+            if tier == "quick" and f.startswith("gmp."):
+                cnt = 100
             for i in range(cnt):
                 n, d, cl = gen_pair(rng, kind, nt, dt, i)
                 cases.append((f, n, d, cl))
@@ -685,78 +824,38 @@ def main(tier, replay=None):
         assert (d != 0 or kind == "isdiv") and clampfit(n, nt) and clampfit(d, dt), (f, n, d)
         assert not f.startswith("seq.divexact") or n % d == 0
     all_cases = cases
-    ncorr = 0
-    nunspec = 0
-    dist_form, dist_class, dist_sign = {}, {}, {}
-    CHUNK = 300000                     # bounded memory / pipe size in the thorough tier
-    for c0 in range(0, len(all_cases), CHUNK):
-        cases = all_cases[c0:c0 + CHUNK]
-        impl_in = "".join("%s %d %d\n" % (f, n, d) for f, n, d, cl in cases)
-        lines = impl_in.splitlines(True)
-        iout, crashed, start = [], {}, 0
-        while start < len(lines):          # a crash inside the library is a result too: locate the case, record it, go on
-            rc, o, ierr = vf.run_lines(himpl, "".join(lines[start:]), timeout=3000)
-            iout += o
-            if len(iout) >= len(lines):
-                break
-            if rc == 124 or "[timeout]" in (ierr or ""):
-                # our own tooling ran out of time (machine load): the rest of the chunk is an inconclusive stream, not a finding
-                inconclusive.append("implementation harness timed out after %d of %d cases of a chunk: the remaining cases were not compared" % (len(iout), len(lines)))
-                iout += ["NOT-RUN"] * (len(lines) - len(iout))
-                break
-            if rc == 0:
-                chk.broke("implementation harness failed (rc=%s, %d/%d lines)" % (rc, len(iout), len(cases)), ierr)
-                return chk.finish()
-            if len(crashed) >= 25:     # enough crashing inputs located: the rest of this chunk is not run
-                chk.notes.append("more than 25 crashes of the implementation in one chunk: %d cases not run" % (len(lines) - len(iout)))
-                iout += ["NOT-RUN"] * (len(lines) - len(iout))
-                break
-            crashed[len(iout)] = rc
-            iout.append("CRASH(rc=%s)" % rc)
-            start = len(iout)
-        iout = iout[:len(lines)]
-        mout = None
-        if drv:
-            rc, mout, merr = vf.run_lines(drv, impl_in, timeout=3000)
-            if rc == 124 or "[timeout]" in (merr or ""):
-                inconclusive.append("extracted model driver timed out after %d of %d cases of a chunk: no correspondence comparison for this chunk" % (len(mout), len(cases)))
-                mout = None
-            elif rc != 0 or len(mout) != len(cases):
-                chk.broke("model driver failed (rc=%s, %d/%d lines)" % (rc, len(mout), len(cases)), merr)
-                mout = None
-        # 4. comparison: implementation vs oracle decides violations; implementation vs extracted model is the tie
-        for i, (f, n, d, cl) in enumerate(cases):
-            kind, nt, dt, ret = F[f]
-            exp = SPEC[kind](n, d)
-            specified = True
-            if ret is not None:            # word / double returning `%`: the documented remainder as the return type hands it back
-                conv = ret_value(exp[0], ret)
-                if conv != exp[0]:
-                    nunspec += 1
-                exp = [conv]
-            if iout[i] == "NOT-RUN":
-                continue
-            got = norm(iout[i])
-            exps = [str(x) for x in exp]
-            dist_form[f] = dist_form.get(f, 0) + 1
-            dist_class[cl] = dist_class.get(cl, 0) + 1
-            sg = "n%s,d%s" % ("<0" if n < 0 else ("=0" if n == 0 else ">0"), "<0" if d < 0 else ">0")
-            dist_sign[sg] = dist_sign.get(sg, 0) + 1
-            chk.count((f, n, d), nontrivial=(n != 0 and abs(d) > 1 and n % d != 0) or (kind in ("exact",) and abs(d) != 1 and n != 0))
-            if (c0 + i) % 1499 == 0 or (cl == "directed" and i % 7 == 0):
-                chk.sample({"form": f, "n": str(n), "d": str(d), "class": cl, "impl": iout[i], "spec": exps}, limit=16)
-            site, klass = site_of(f, n, d)
-            if specified and got != exps:
-                chk.fail_input(site, klass, {"form": f, "n": str(n), "d": str(d)}, exps, iout[i],
-                               "implementation differs from the documented convention (%s)" % kind)
-                continue                   # a failing input is reported once, not again as a correspondence break
-            if mout is not None:
-                ncorr += 1
-                mg = norm(mout[i])
-                if mg != got:
-                    chk.broke("correspondence model/implementation differs on %s n=%d d=%d: model=%s impl=%s" % (f, n, d, mout[i], iout[i]))
-                elif specified and mg != exps:
-                    chk.broke("extracted model differs from the specification oracle on %s n=%d d=%d: model=%s spec=%s" % (f, n, d, mout[i], exps))
+    st = {"ncorr": 0, "noracle": 0, "nnarrow": 0, "ndbg": 0, "dist_form": {}, "dist_class": {}, "dist_sign": {}}
+    run_stream(chk, st, himpl, drv, all_cases, "NDEBUG build", inconclusive)
+    # 5. the same translation units compiled with givaro's --enable-debug flags (-UNDEBUG -DDEBUG): every assert of gmp++_int_div.C /
+    #    gmp++_int_mod.C is evaluated on the seed-independent cases; a failing assert is a failing input of that configuration
+    if not replay:
+        hdbg, l3 = vf.build_harness("c02_divmod.C", extra_flags=("-UNDEBUG", "-DDEBUG", "-DC02_ASSERTS"), name="c02_divmod_dbg", timeout=3000)
+        if hdbg is None:
+            if "[timeout after" in l3:
+                inconclusive.append("compiling the asserts-on harness timed out (machine load): the asserts-on stream was not run")
+            else:
+                chk.broke("asserts-on harness (-UNDEBUG -DDEBUG) does not compile against /repo", l3)
+        else:
+            dcases = [(f, n, d, cl) for f, n, d, cl in all_cases
+                      if not f.startswith(("gmp.", "cast.")) and (cl == "directed" or "exhaustive" in cl or cl == "configuration constant")]
+            dcases.append(("cfg.ndebug", 1, 1, "configuration constant"))
+            run_stream(chk, st, hdbg, None, dcases, "asserts-on build", inconclusive, dbg=True)
+    ncorr = st["ncorr"]
+    dist_form, dist_class, dist_sign = st["dist_form"], st["dist_class"], st["dist_sign"]
+    # 6. floors: what must actually have been compared for this run to count; tooling problems that push a stream below its floor
+    #    are reported prominently and are NOT a pass of that stream
+    nexp = len(all_cases)
+    floors = {"oracle_comparisons": (st["noracle"], int(0.98 * nexp)), "correspondence_comparisons": (st["ncorr"], int(0.95 * nexp)),
+              "asserts_on_comparisons": (st["ndbg"], 0 if replay else 1000), "theorems_rechecked": (chk.cov["discharged"], chk.cov["obligations"])}
+    if replay:
+        floors = {"oracle_comparisons": (st["noracle"], nexp)}
+    missed = {k: {"done": v[0], "floor": v[1]} for k, v in floors.items() if v[0] < v[1]}
+    chk.cov["floors"] = {k: {"done": v[0], "floor": v[1]} for k, v in floors.items()}
+    chk.cov["inconclusive"] = bool(inconclusive) or bool(missed)
+    if missed:
+        chk.cov["floor_missed"] = missed
+        chk.notes.append("FLOOR MISSED (tooling problem, see inconclusive_streams): %s - this run does NOT count as a pass of those streams" % json.dumps(missed))
+        print("INCONCLUSIVE property=C02 floor missed: %s" % json.dumps(missed))
     if len(chk.broken) > 20:
         chk.broken = chk.broken[:20] + [{"what": "... %d more" % (len(chk.broken) - 20), "detail": ""}]
     chk.cov["rule"] = ("every call form x { the box n in [-N,N], d in [-D,D]\\{0} swept completely (quick N=7, D=3; thorough N=130, D=20; thorough also every divisor of the 8/16-bit types) } + (n, d) drawn per class: n = k d, n in {d,-d,0}, |d| = 1, multi-limb multiples, |d| > |n|, "
@@ -770,9 +869,8 @@ def main(tier, replay=None):
     if inconclusive:
         chk.notes += inconclusive
         chk.cov["inconclusive_streams"] = inconclusive
-    chk.cov["double_results_that_needed_rounding"] = ROUNDED[0]
+    chk.cov["narrow_return_cases_where_the_remainder_does_not_fit"] = st["nnarrow"]
     chk.cov["distribution_by_form"] = dist_form
     chk.cov["distribution_by_class"] = dist_class
     chk.cov["distribution_by_sign"] = dist_sign
-    chk.cov["remainder_not_representable_in_return_type_checked_as_converted"] = nunspec
     return chk.finish()
